@@ -238,7 +238,7 @@ bool FSolver::LoadProblemFile ()
             loadAprev = true;
         }
 
-        return loadPreviousSolution(loadAprev);
+        if (!loadPreviousSolution(loadAprev)) return false;
     }
 
     // do some precomputations
@@ -252,12 +252,8 @@ bool FSolver::LoadProblemFile ()
             {
                 // first time through was just to get MuMax from AC curve...
                 // -> backup Hdata and Bdata:
-                std::vector<double> oldBdata;
-                std::vector<CComplex> oldHdata;
-                oldBdata.reserve(prop.BHpoints);
-                oldHdata.reserve(prop.BHpoints);
-                std::copy(prop.Bdata.begin(), prop.Bdata.end(), oldBdata.begin());
-                std::copy(prop.Hdata.begin(), prop.Hdata.end(), oldHdata.begin());
+                std::vector<double> oldBdata(prop.Bdata);
+                std::vector<CComplex> oldHdata(prop.Hdata);
 
                 prop.GetSlopes(Frequency*2.*PI);
 
